@@ -183,6 +183,8 @@ PROPS["C02"] = {
           bounds="2 entries, texts concrete; unwind 8", functions=_F_POOL),
         H(_POOL + "c02_pool_read_a_free_a_long", timeout=300, symbolic="reference counts; duplicate text and a free slot; 3-byte references",
           bounds="3 entries; unwind 8", functions=_F_POOL),
+        H(_POOL + "c02_pool_read_zero_count_with_text", timeout=600, symbolic="the live entry's reference count; the unused entry's count is concrete 0 but it still has text",
+          bounds="2 entries; unwind 8", functions=_F_POOL),
         H(_POOL + "c02_pool_header_shapes", timeout=600, symbolic="none: seven concrete header shapes incl. the long-string escape with low word 0, 1, 0xffff (a symbolic escape marker makes the entry count symbolic: > 15 min)",
           bounds="<=3 records; unwind 8", functions=["stringpool::StringPoolBuilder::read_from_pool", "stringpool::StringPoolBuilder::build_from_data"]),
         H(_PS + "c09_propvalue_read_i4", timeout=600, mem_gb=5, symbolic="8 payload bytes, available stream length", bounds="type tag concrete (I4); unwind 8", functions=["propset::PropertyValue::read"]),
